@@ -17,6 +17,13 @@ if ALT_REPO:
     OUT = WORK
     HARNESS = os.path.join(ROOT, "work", "alt_harness")
 VH = os.path.join(HARNESS, "target", "debug", "vh")
+# coverage mode (tools/coverage.sh): the harness and the CLI are built with source-based coverage
+# instrumentation (nightly toolchain: it ships llvm-profdata / llvm-cov) into a separate target directory
+COV = os.environ.get("VERIF_COV")
+if COV:
+    VH = os.path.join(WORK, "cov_target", "debug", "vh")
+    os.makedirs(os.path.join(WORK, "cov_prof"), exist_ok=True)
+    os.environ["LLVM_PROFILE_FILE"] = os.path.join(WORK, "cov_prof", "p-%p-%8m.profraw")
 TLA_JAR = "/opt/veriftools/tla/tla2tools.jar:/opt/veriftools/tla/CommunityModules-deps.jar"
 NCPU = os.cpu_count() or 4
 
@@ -181,7 +188,12 @@ def build_harness(quiet=True):
             open(p, "w").write(txt)
     env = dict(os.environ)
     env["CARGO_NET_OFFLINE"] = "true"
-    p = subprocess.run(["cargo", "build", "--offline"], cwd=HARNESS, env=env,
+    cmd = ["cargo", "build", "--offline"]
+    if COV:
+        cmd = ["cargo", "build", "--offline", "--target-dir", os.path.join(WORK, "cov_target")]
+        env["RUSTFLAGS"] = "--cfg bigtools_verif --check-cfg cfg(bigtools_verif) -C instrument-coverage"
+        env.pop("LLVM_PROFILE_FILE", None)
+    p = subprocess.run(cmd, cwd=HARNESS, env=env,
                        stdout=subprocess.PIPE, stderr=subprocess.STDOUT, text=True)
     if p.returncode != 0:
         raise ToolError("harness build failed:\n" + p.stdout[-6000:])
@@ -465,7 +477,8 @@ class Run:
         if self.drift:
             ev["coverage"]["model_drift_cases"] = self.drift
         # extras (X..: coverage beyond the listed properties) keep their evidence apart from the per-property files
-        evdir = os.path.join(OUT, "evidence", "extra") if self.pid.startswith("X") else os.path.join(OUT, "evidence")
+        evbase = os.path.join(WORK, "cov_evidence") if COV else os.path.join(OUT, "evidence")     # coverage-mode runs are not evidence
+        evdir = os.path.join(evbase, "extra") if self.pid.startswith("X") else evbase
         os.makedirs(evdir, exist_ok=True)
         with open(os.path.join(evdir, self.pid + ".json"), "w") as f:
             json.dump(ev, f, indent=1)
